@@ -110,8 +110,8 @@ def input_assembly(
                     if shape == "fasta":
                         pos += glen
                     if double_gaps and draw(st.integers(0, 3)) == 0:
-                        g2 = draw(st.sampled_from([1, 50, 3000]))
-                        rows.append(["G", g2, "centromere"])
+                        g2 = draw(st.sampled_from([1, 50, 3000, glen]))
+                        rows.append(["G", g2, gtype if g2 == glen and shape != "fasta" else "centromere"] if g2 != glen or shape != "fasta" else ["G", g2, gtype])
                         if shape == "fasta":
                             pos += g2
             if shape == "fasta":
@@ -373,7 +373,7 @@ def residue_string(draw, n, acgt_only=False):
 FASTA_NAME_ALPHABET = "abcdefgXYZ0123456789_-.:|#+=@/é"
 
 
-EXOTIC_DESC = [" caf\xe9 latin-1", "\t\xff\xfe raw bytes", " a\xa0b", " \x85next"]
+EXOTIC_DESC = [" caf\xe9 latin-1", "\t\xff\xfe raw bytes", " a\xa0b", " \x85next", " primary assembly ", "\t", "  "]
 EXOTIC_NAME_PARTS = ["\u00a0", "\x1f", "\u2003", "\x1c"]
 
 
@@ -407,7 +407,10 @@ def fasta_record(draw, idx, acgt_only=False, max_lines=12, min_len=0, exotic_hea
         if draw(st.booleans()):
             name = f"{base}{draw(st.sampled_from(EXOTIC_NAME_PARTS))}{idx}"
     eol = draw(st.sampled_from(["\n", "\n", "\r\n"]))
-    return [name, desc, seq, width, eol]
+    rec_ = [name, desc, seq, width, eol]
+    if exotic_headers and n > 0 and draw(st.integers(0, 7)) == 0:
+        rec_.append(draw(st.integers(1, 2)))  # empty line(s) after the record's last sequence line (cat a.fa <(echo) b.fa)
+    return rec_
 
 
 @st.composite
@@ -420,10 +423,12 @@ def fasta_file(draw, max_records=6, acgt_only=False, max_lines=12, min_len=0, fi
 
 def fasta_bytes(plain) -> bytes:
     out = []
-    for name, desc, seq, width, eol in plain["records"]:
+    for name, desc, seq, width, eol, *more in plain["records"]:
         out.append(f">{name}".encode() + desc.encode("latin-1") + eol.encode())
         for i in range(0, len(seq), width):
             out.append(seq[i : i + width].encode("latin-1") + eol.encode())
+        if more:
+            out.append(eol.encode() * more[0])
     data = b"".join(out)
     if not plain["final_newline"]:
         last_eol = plain["records"][-1][4].encode()
@@ -465,6 +470,8 @@ def tagged_case(
     fasta=None,  # plain FASTA to derive the input from (names already haplotype-prefixed if wanted)
     slivers=False,  # small fractional texels, gaps of ~2 texels, many cuts near contig ends
     primary_mode=None,  # two haplotypes, only the first is curated; its first painted scaffold carries `Primary`
+    group_sizes=None,  # sizes of Pretext scaffolds to draw from
+    all_painted=False,
 ):
     if exact:
         t = 1.0
@@ -473,7 +480,7 @@ def tagged_case(
     else:
         t = draw(texel(small=small_texel))
     two = draw(st.integers(0, 2)) == 0 if two_haplotypes is None else two_haplotypes
-    haps = draw(st.sampled_from([["Hap1", "Hap2"], ["hap1", "hap2"], ["HAP1", "HAP2"], ["mat", "pat"]])) if two else []
+    haps = draw(st.sampled_from([["Hap1", "Hap2"], ["hap1", "hap2"], ["HAP1", "HAP2"], ["mat", "pat"], ["1", "2"]])) if two else []
     primary = bool(two) and fasta is None and (draw(st.integers(0, 3)) == 0 if primary_mode is None else primary_mode)
     if fasta is not None:
         from vf.props.c03 import fasta_input_plain
@@ -527,10 +534,10 @@ def tagged_case(
     scaffolds = []  # dicts: rows (fragment rows), painted, hap, name_tag, singleton
     idx = 0
     while idx < len(order):
-        size = draw(st.sampled_from([1, 1, 2, 3, 4] if not many_painted else [1, 1, 1, 2]))
+        size = draw(st.sampled_from(group_sizes or ([1, 1, 2, 3, 4] if not many_painted else [1, 1, 1, 2])))
         group = order[idx : idx + size]
         idx += size
-        painted = draw(st.integers(0, 3)) > 0 if many_painted else draw(st.booleans())
+        painted = True if all_painted else (draw(st.integers(0, 3)) > 0 if many_painted else draw(st.booleans()))
         rows = []
         for pi in group:
             name, s, e = pieces[pi]
@@ -623,6 +630,8 @@ def tagged_case(
         for k, r in enumerate(rows):
             if draw(st.integers(0, piece_tag_weight - 1)) == 0:
                 r[5].append(draw(st.sampled_from(["Haplotig", "Haplotig", "Contaminant", "FalseDuplicate"])))
+                if s["painted"] and len(rows) > 1 and draw(st.integers(0, 3)) == 0:
+                    r[5].append("Unloc")  # an unloc that is also removed: the piece tag decides where it goes
             elif s["painted"] and len(rows) > 1 and n_unloc < len(rows) - 1 and draw(st.integers(0, unloc_weight - 1)) == 0:
                 r[5].append("Unloc")
                 n_unloc += 1
